@@ -265,6 +265,10 @@ class ModelCompiler:
                 if any(isinstance(el, list) for el in defn.cells):
                     for column in defn.cells:
                         for row_address in column:
+                            if row_address not in self.model.cells:
+                                # Empty cells are not stored in a workbook.
+                                self.model.cells[row_address] = \
+                                    xltypes.XLCell(row_address, None)
                             self.model.cells[row_address].defined_names.append(
                                 name)
                 else:
